@@ -86,3 +86,23 @@ Proof.
   intros prod sver spatch other. unfold compare_version. destruct (split_other other) as [oversion opatch].
   rewrite src_compare_tail_unfold, <- tie_patch_cmp. destruct (compare_versions sver oversion =? 0)%Z; reflexivity.
 Qed.
+
+(* statements about the translated source alone (no hand-written model of these lines): whatever the four matches say, the patch level cannot
+   override a difference of the version texts, and the result is one of -1, 0, 1 when the version comparison's is *)
+Lemma src_version_decides : forall vc prod s o a b c d, vc <> 0%Z -> src_compare_tail vc prod s o a b c d = vc.
+Proof.
+  intros vc prod s o a b c d H. rewrite src_compare_tail_unfold.
+  destruct (vc =? 0)%Z eqn:E; [apply Z.eqb_eq in E; contradiction | reflexivity].
+Qed.
+Lemma src_tail_range : forall vc prod s o a b c d, (vc = -1 \/ vc = 0 \/ vc = 1)%Z ->
+  let r := src_compare_tail vc prod s o a b c d in (r = -1 \/ r = 0 \/ r = 1)%Z.
+Proof.
+  intros vc prod s o a b c d H. cbv zeta. rewrite src_compare_tail_unfold.
+  destruct (vc =? 0)%Z; cbn [negb]; [|exact H].
+  unfold src_patch_cmp. cbv zeta.
+  destruct (String.eqb prod product_DropbearSSH).
+  - rewrite src_three_way. apply lex_cmp_range3.
+  - destruct (String.eqb prod product_OpenSSH); [|rewrite src_three_way; apply lex_cmp_range3].
+    destruct c, d; cbn [negb andb]; cbv iota beta; rewrite src_three_way;
+      match goal with |- context[if ?x then _ else _] => destruct x end; auto; apply lex_cmp_range3.
+Qed.
